@@ -255,7 +255,8 @@ def unit_g12s(ctx):
             hn = "s=0"
             tape = g12_blocks(P, rng, "random", k) + g12_blocks(P, rng, "random", k2)
         else:
-            tape = g12_blocks(P, rng, tk, k)
+            # a second candidate for the case that the first gives r = 0 (k = 1 / q-1 on a base point with x = 0)
+            tape = g12_blocks(P, rng, tk, k) + g12_blocks(P, rng, "random", k2)
         if nsig is not None and i >= nsig:
             break
         pubb = G.enc_pub(P, G.pubkey(P, d))
@@ -272,11 +273,16 @@ def unit_g12s(ctx):
         else:
             tp = Tape(tape, tk)
             r, sig = S.sign(h, d, tp.addr, 0)
-            want, used, redo = G.sign(P, d, h, tape)
+            try:
+                want, used, redo = G.sign(P, d, h, tape)
+            except ValueError as e:
+                raise Harness("model g12s sign: %s (%s, d=%d, h=%s, tape=%s, kind=%s)" % (e, S.name, d, h.hex(), tape.hex(), tk))
             if want is None:
                 raise Harness("model sign failed")
             if G.verify(P, h, want, pubb) is not True:
                 raise Harness("model: verify(sign) fails")
+            if redo and tk != "s=0-forced":
+                mark(ctx, "sign:r=0-retry")
         rv = S.verify(h, sig, pubb) if r == 0 else None
         ctx.digest(r, sig if r == 0 else b"", rv)
         det = {"params": S.name, "d": d, "hash": h, "tape": tape, "ret": errname(r), "sig": sig, "want": want,
@@ -288,8 +294,6 @@ def unit_g12s(ctx):
                 ctx.violation("g12sSign:signature-does-not-verify:%s" % tk, "g12sVerify rejects the signature g12sSign produced (%s)" % errname(rv), det)
             elif want is not None and sig != want:
                 ctx.violation("g12sSign:value:%s" % tk, "signature differs from the standard's value for this generator output", det)
-            elif dk == "d=random" and len(base) < ctx.params.get("nbase", 1) and tk != "s=0-forced":
-                base.append((d, pubb, h, sig))
         lib.release()
 
     # ---- hash aliases: same reduced hash => same verdict -----------------------------------
@@ -318,8 +322,8 @@ def unit_g12s(ctx):
                   lambda: G.verify(P, h2, sig, pubb), {"params": S.name, "signed_hash": grp[0], "hash": h2, "sig": sig, "pubkey": pubb})
             lib.release()
 
-    # ---- alterations ------------------------------------------------------------------
-    if not base:
+    # ---- alterations (of signatures the model defines; the sign cases above check that the library produces these) ----
+    for _ in range(ctx.params.get("nbase", 1)):
         d = rng.randrange(1, q)
         h = rng.randbytes(mo)
         sig, _, _ = G.sign(P, d, h, g12_blocks(P, rng, "random", rng.randrange(1, q)) + g12_blocks(P, rng, "random", rng.randrange(1, q)))
@@ -575,12 +579,10 @@ def unit_bign96(ctx):
                     ctx.violation("bign96Sign2:nondeterministic:H=%s" % hn, "two calls differ", det)
                 if M.verify(oid, h, sg, pubb) is not True:
                     ctx.violation("%s:value:equation" % fn, "signature does not satisfy the verification equation", det)
-            if dk == "d=random" and hn == "random" and len(base) < 2 and rv == 0:
-                base.append((d, pubb, h, sg))
         lib.release()
 
-    # ---- alterations
-    if not base:
+    # ---- alterations (of signatures the thin model defines)
+    for _ in range(2):
         d, h = rng.randrange(1, q), rng.randbytes(24)
         base.append((d, M.pub(d), h, M.sign_k(oid, d, h, rng.randrange(1, q))))
     for (d, pubb, h, sig) in base:
@@ -755,6 +757,8 @@ def unit_dstu(ctx):
         d = {"d=1": 1, "d=max": keep}.get(kind, rng.randrange(1, keep + 1))
         seed = (rng.randbytes(32), rng.randbytes(32))
         tape = dstu_scalar_tape(P, rng, kind, d)
+        if len(pts) < 3 and kind != "brng":
+            pts.append(("pubkey", D.enc_pt(P, D.pubkey(P, d))))
         if not ctx.case(["dstuKeypairGen", S.name, ptb, kind, seed if kind == "brng" else tape], "dstu:keypair"):
             continue
         mark(ctx, tag, "keypair:" + kind)
@@ -781,8 +785,6 @@ def unit_dstu(ctx):
                 ctx.violation("dstuKeypairGen:value:pubkey:%s" % kind, "public key is not -dP", det)
             if rv != 0:
                 ctx.violation("dstuKeypairGen:invalid-pair:%s" % kind, "generated public key fails dstuPointVal (%s)" % errname(rv), det)
-            if pub == want and len(pts) < 4:
-                pts.append(("pubkey", pub))
         lib.release()
 
     # ---- compression ----------------------------------------------------------------------
@@ -898,11 +900,16 @@ def unit_dstu(ctx):
                 ctx.violation("dstuSign:signature-does-not-verify:%s" % tk, "dstuVerify rejects the produced signature (%s)" % errname(rv), det)
             if want is not None and sig != want:
                 ctx.violation("dstuSign:value:%s" % tk, "signature differs from the model for this generator output", det)
-            if dk == "d=random" and rv == 0 and len(base) < ctx.params.get("nbase", 1) and tk != "s=0-forced":
-                base.append((d, pubb, h, sig, ld))
         lib.release()
 
-    # ---- alterations ----------------------------------------------------------------------
+    # ---- alterations (of signatures the model defines) ------------------------------------------
+    for _ in range(ctx.params.get("nbase", 1)):
+        d = rng.randrange(1, n)
+        h = rng.randbytes(rng.choice((no - 1, no, no + 1, 32, 64)))
+        ld = lds[rng.randrange(len(lds))]
+        sig, _, _ = D.sign(P, d, h, dstu_scalar_tape(P, rng, "random", rng.randrange(1, keep + 1)) * 1 +
+                           dstu_scalar_tape(P, rng, "random", rng.randrange(1, keep + 1)), ld)
+        base.append((d, D.enc_pt(P, D.pubkey(P, d)), h, sig, ld))
     for (d, pubb, h, sig, ld) in base:
         half = ld // 16
         r0 = int.from_bytes(sig[:half], "little")
@@ -977,7 +984,6 @@ def unit_pfok(ctx):
         return r, lib.rd(out, ko)
 
     # ---- key pairs
-    pairs = []
     for kind in ("random", "zeros", "ones", "high-junk", "x=1", "brng") * ctx.params.get("nkeys", 1):
         x = {"zeros": 0, "ones": rmax, "x=1": 1}.get(kind, rng.getrandbits(P.r))
         v = x
@@ -986,7 +992,6 @@ def unit_pfok(ctx):
         tape = v.to_bytes(mo, "little")
         seed = (rng.randbytes(32), rng.randbytes(32))
         if not ctx.case(["pfokKeypairGen", name, kind, seed if kind == "brng" else tape], "pfok:keypair"):
-            pairs.append((x, enc_y(PF.mpow(P, P.g, x))))
             continue
         mark(ctx, tag, "keypair:" + kind)
         priv, pub = lib.alloc(mo), lib.alloc(no)
@@ -999,7 +1004,6 @@ def unit_pfok(ctx):
             r = lib.pfokKeypairGen(priv, pub, params(), tp.addr, 0)
         pv, pb = lib.rd(priv, mo), lib.rd(pub, no)
         want = enc_y(PF.mpow(P, P.g, x))
-        pairs.append((x, want))
         det = {"params": name, "tape": tape, "ret": errname(r), "privkey": pv, "pubkey": pb, "want_priv": enc_x(x), "want_pub": want}
         if r != 0:
             ctx.digest(r)
@@ -1108,16 +1112,16 @@ def jobs(tier, scale=1.0):
         parts = (4 if big else 2) if q else (8 if big else 4)
         for part in range(parts):
             js.append({"unit": "c16:unit_g12s", "params": {"name": name, "part": part, "parts": parts,
-                                                            "nflip": sc(10 if big else 24) if q else None, "nbase": 1}})
+                                                            "nflip": sc(48 if big else 128) if q else None, "nbase": 1}})
     for name in D.NAMES:
         m = [163, 167, 173, 179, 191, 233, 257, 307, 367, 431][int(name.rsplit(".", 1)[1])]
         parts = (2 if m < 300 else 3) if q else (4 if m < 300 else 6)
         for part in range(parts):
             js.append({"unit": "c16:unit_dstu", "params": {"name": name, "part": part, "parts": parts,
-                                                            "nflip": sc(16 if m < 300 else 8) if q else sc(400 if m < 300 else 200),
+                                                            "nflip": sc(48 if m < 300 else 24) if q else sc(600 if m < 300 else 300),
                                                             "nmodel": 2 if q else 6, "nbase": 1}})
     for ch in range(2 if q else 6):
-        js.append({"unit": "c16:unit_bign96", "params": {"chunk": ch, "nflip": sc(40) if q else None}})
+        js.append({"unit": "c16:unit_bign96", "params": {"chunk": ch, "nflip": sc(120) if q else None}})
     for name in PF.NAMES:
         for ch in range(1 if q else 3):
             js.append({"unit": "c16:unit_pfok", "params": {"name": name, "chunk": ch, "nagree": sc(6 if q else 18), "nkeys": 1 if q else 2}})
